@@ -39,7 +39,7 @@ def sched_names(sf):
     return [fx_id(n) for n in sf.get_fixture_names()]
 
 
-def run_impl(proj, runs=()):
+def run_impl(proj, runs=(), ops_seed=None):
     """PreparedProject.create on real objects. Returns the observation dict:
        code (0 accepted / 1+reason / 200+ other exception), schedules, resolved, runs [(force_disabled, threads, outcome)]"""
     from lemoncheesecake.project import PreparedProject
@@ -72,12 +72,73 @@ def run_impl(proj, runs=()):
             obs["schedules"] = None
             obs["schedule_exc"] = "%s: %s" % (type(e).__name__, e)
         obs["resolved"] = [[parse_path(d.path) for d in t.resolved_dependencies] for t in lcc_flatten_tests(suites)]
+        if ops_seed is not None:
+            try:
+                obs["ops"] = chain_ops(reg, suites, ops_seed)
+            except Exception as e:
+                obs["ops"] = None
+                obs["ops_exc"] = "%s: %s" % (type(e).__name__, e)
         obs["runs"] = []
         for fd, nthreads in runs:
             obs["runs"].append([fd, nthreads, run_once(proj, tmp, fd, nthreads)])
         return obs
     finally:
         shutil.rmtree(tmp, ignore_errors=True)
+
+
+OUTCOMES = {"KeyError": 1, "LookupError": 2, "AssertionError": 3}
+
+
+def chain_ops(reg, suites, seed):
+    """Differential of the dynamic part of ScheduledFixtures: the real chain test -> suite -> session -> pre_run of one test
+    (include_disabled=False) and a seeded sequence of _setup_fixture / _teardown_fixture / get_fixture_result calls, in and
+    out of the legal order. -> [suite index, test index, [[op, level, name, outcome]]] or None when there is no test."""
+    import random
+    from lemoncheesecake.testtree import flatten_suites as lcc_flatten_suites, flatten_tests as lcc_flatten_tests
+    rng = random.Random(seed)
+    fsuites = list(lcc_flatten_suites(suites))
+    ftests = list(lcc_flatten_tests(suites))
+    if not ftests:
+        return None
+    tj = rng.randrange(len(ftests))
+    test = ftests[tj]
+    si = [i for i, s in enumerate(fsuites) if s is test.parent_suite][0]
+    pre = reg.get_fixtures_scheduled_for_pre_run(suites, False)
+    ses = reg.get_fixtures_scheduled_for_session(suites, pre, False)
+    sui = reg.get_fixtures_scheduled_for_suite(fsuites[si], ses, False)
+    tst = reg.get_fixtures_scheduled_for_test(test, sui)
+    levels = [tst, sui, ses, pre]
+    known = [n for lv in levels for n in lv.get_fixture_names()]
+    pool = known + ["f777"] + [f for f in test.get_fixtures()]
+    # a legal prefix (setups in order from the outermost level) followed / interleaved with arbitrary operations
+    legal = [(0, 3 - k, n) for k, lv in enumerate(reversed(levels)) for n in lv.get_fixture_names()]
+    ops = []
+    cut = rng.randint(0, len(legal))
+    for o in legal[:cut]:
+        if rng.random() < 0.9:
+            ops.append(o)
+    for _ in range(rng.randint(3, 10)):
+        ops.append((rng.choice([0, 1, 2, 2]), rng.randrange(4), rng.choice(pool)))
+    for o in legal[cut:]:
+        if rng.random() < 0.7:
+            ops.append(o)
+        if rng.random() < 0.4:
+            ops.append((rng.choice([1, 2, 2]), rng.randrange(4), rng.choice(pool)))
+    out = []
+    for op, lv, name in ops:
+        sf = levels[lv]
+        try:
+            if op == 0:
+                sf._setup_fixture(name)
+            elif op == 1:
+                sf._teardown_fixture(name)
+            else:
+                sf.get_fixture_result(name)
+            res = 0
+        except Exception as e:
+            res = OUTCOMES.get(type(e).__name__, 9)
+        out.append([op, lv, fx_id(name), res])
+    return [si, tj, out]
 
 
 def run_once(proj, tmp, force_disabled, nthreads):
@@ -392,11 +453,51 @@ Definition all_schedules (reg : registry) (suites : list suite) : list (option (
               (flat_map (suites_inh false) suites)
   ++ map (fun x => names_of (get_fixtures_scheduled_for_test reg (snd x))) (all_tests_with_path suites).
 Definition is_ok (r : result unit) : bool := match r with Ok _ => true | Err _ => false end.
+(* the dynamic part: a state of four ScheduledFixtures objects [test; suite; session; pre_run]; the object of level k sees the
+   levels after it as its chain of parents *)
+Definition out_code {A} (r : result A) : nat :=
+  match r with Ok _ => 0 | Err KeyError => 1 | Err LookupError => 2 | Err AssertionError => 3 | Err _ => 9 end.
+Definition exec_op (st : chain name) (o : nat * nat * nat * nat) : chain name * nat :=
+  match o with
+  | (op, lv, n, _) =>
+      let c := skipn lv st in
+      match op with
+      | 0 => match setup_fixture_begin c n with
+             | Ok _ => (firstn lv st ++ setup_fixture_end c n n, 0)
+             | Err e => (st, out_code (@Err unit e))
+             end
+      | 1 => match teardown_fixture c n with
+             | Ok (_, c') => (firstn lv st ++ c', 0)
+             | Err e => (st, out_code (@Err unit e))
+             end
+      | _ => (st, out_code (get_fixture_result c n))
+      end
+  end.
+Fixpoint exec_ops (st : chain name) (ops : list (nat * nat * nat * nat)) : bool :=
+  match ops with
+  | [] => true
+  | o :: r => let '(st', code) := exec_op st o in Nat.eqb code (snd o) && exec_ops st' r
+  end.
+Definition ops_agree (reg : registry) (suites : list suite) (info : option (nat * nat * list (nat * nat * nat * nat))) : bool :=
+  match info with
+  | None => true
+  | Some (si, tj, ops) =>
+      match nth_error (flat_map (suites_inh false) suites) si, nth_error (all_tests_with_path suites) tj,
+            get_fixtures_scheduled_for_pre_run reg suites false, get_fixtures_scheduled_for_session reg suites false with
+      | Some (inh, s), Some (_, _, t), Ok pre, Ok ses =>
+          match get_fixtures_scheduled_for_suite reg inh s false, get_fixtures_scheduled_for_test reg t with
+          | Ok sui, Ok tst => exec_ops [new_level tst; new_level sui; new_level ses; new_level pre] ops
+          | _, _ => false
+          end
+      | _, _, _, _ => false
+      end
+  end.
 Definition lnat_eqb := list_eqb Nat.eqb.
 (* a case: the project, the verdict of PreparedProject.create, the schedules it computes, the resolved dependencies *)
-Definition agrees (c : xproject * nat * list (option (list nat)) * list (list (list nat))) : bool :=
+Definition agrees (c : xproject * nat * list (option (list nat)) * list (list (list nat)) *
+                        option (nat * nat * list (nat * nat * nat * nat))) : bool :=
   match c with
-  | (x, code, sch, res) =>
+  | (x, code, sch, res, info) =>
       match validate x with
       | Err e => Nat.eqb (err_code e) code
       | Ok pp =>
@@ -405,6 +506,7 @@ Definition agrees (c : xproject * nat * list (option (list nat)) * list (list (l
           && list_eqb (list_eqb lnat_eqb) (map snd (pp_resolved pp)) res
           && is_ok (dry_run (pp_registry pp) (p_suites (xp_proj x)) false)
           && is_ok (dry_run (pp_registry pp) (p_suites (xp_proj x)) true)
+          && ops_agree (pp_registry pp) (p_suites (xp_proj x)) info
       end
   end.
 """
@@ -413,20 +515,23 @@ Definition agrees (c : xproject * nat * list (option (list nat)) * list (list (l
 def g_case(proj, obs):
     sch = obs.get("schedules") or []
     res = obs.get("resolved") or []
-    return "(%s,\n   %d, %s, %s)" % (
+    ops = obs.get("ops")
+    g_ops = "None" if not ops else "(Some (%d, %d, %s))" % (
+        ops[0], ops[1], G.g_list(ops[2], lambda o: "(%d, %d, %d, %d)" % tuple(o)))
+    return "(%s,\n   %d, %s, %s, %s)" % (
         G.g_xproject(proj), obs["code"],
         G.g_list(sch, lambda l: "Some " + G.g_list(l)),
-        G.g_list(res, lambda ds: G.g_list(ds, G.g_path)))
+        G.g_list(res, lambda ds: G.g_list(ds, G.g_path)), g_ops)
 
 
 def cases_file(cases):
     body = ";\n  ".join(g_case(p, o) for p, o in cases)
-    return HEADER + ("Definition cases : list (xproject * nat * list (option (list nat)) * list (list (list nat))) := [\n  %s\n].\n" % body) + \
+    return HEADER + ("Definition cases : list (xproject * nat * list (option (list nat)) * list (list (list nat)) * option (nat * nat * list (nat * nat * nat * nat))) := [\n  %s\n].\n" % body) + \
         "Eval vm_compute in (find_indexes (fun c => negb (agrees c)) cases).\n"
 
 
-def model_disagrees(run, proj):
-    obs = run_impl(proj)
+def model_disagrees(run, proj, ops_seed=None):
+    obs = run_impl(proj, ops_seed=ops_seed)
     rc, out = run.coq_eval("shrink", cases_file([(proj, obs)]))
     bad = lib.parse_nat_list(out) if rc == 0 else None
     return bool(bad)
@@ -455,7 +560,15 @@ def check(run):
         proj, label = G.gen_case(run.rng)
         want_run = done_runs < nruns
         plans = [(False, 1), (run.rng.random() < 0.5, run.rng.choice([2, 3, 4, 8]))] if want_run else []
-        obs = run_impl(proj, plans)
+        ops_seed = run.rng.randrange(1 << 30)
+        obs = run_impl(proj, plans, ops_seed=ops_seed)
+        if obs.get("ops"):
+            run.count("chain_ops", len(obs["ops"][2]))
+            for o in obs["ops"][2]:
+                run.count("chain_op_outcome:%d" % o[3])
+        if "ops_exc" in obs:
+            run.tie_broken("chain operations could not be executed on the implementation", case=proj, detail=obs["ops_exc"])
+        obs["ops_seed"] = ops_seed
         run.evaluations += 1
         run.count("label:" + label.split("+")[0])
         for dsc in G.LAST_DETAILS:
@@ -506,10 +619,11 @@ def check(run):
                 small = proj
                 if not run.oracle_hits:
                     try:
-                        small = shrink(proj, lambda c: model_disagrees(run, c), budget=40)
+                        small = shrink(proj, lambda c: model_disagrees(run, c, obs.get("ops_seed")), budget=40)
                     except Exception:
                         small = proj
-                run.tie_broken("validate / schedules / resolved dependencies = PreparedProject.create", case=small, impl=run_impl(small))
+                run.tie_broken("validate / schedules / resolved dependencies / ScheduledFixtures operations = implementation",
+                               case=small, impl=run_impl(small, ops_seed=obs.get("ops_seed")))
     run.coverage["rule"] = (
         "seeded abstract projects: 30% valid by construction (fixture DAGs over 4 scopes, per-thread, fixture_name, duplicates, "
         "parametrized tests, setup_suite/injected uses, dependency DAGs, nested and disabled suites, optional test filter, policies "
@@ -518,7 +632,8 @@ def check(run):
         "inversion, per-thread misuse, forbidden and builtin names, filtered-out dependencies, the 6 policy violations); each is "
         "built as real Suite/Test/Fixture/MetadataPolicy objects and given to PreparedProject.create, and to Validate.validate "
         "inside Coq (verdict, rejecting check, schedules per scope with order, resolved dependencies, dry run of all fixture "
-        "lookups); accepted projects are really run (1 thread and 2-8 threads, with and without force_disabled). "
+        "lookups; plus, on the real chain test->suite->session->pre_run of one test, a seeded sequence of _setup_fixture / "
+        "_teardown_fixture / get_fixture_result calls in and out of the legal order, outcome class compared call by call); accepted projects are really run (1 thread and 2-8 threads, with and without force_disabled). "
         "non-trivial = rejected, or accepted with at least one non-empty schedule")
 
 
